@@ -96,12 +96,7 @@ func guard(f func() []interface{}) []interface{} {
 }
 
 func pickType(c *simkit.Choices) *model.TypeEntry {
-	for {
-		te := &model.Catalogue[c.N(len(model.Catalogue))]
-		if te.Supported {
-			return te
-		}
-	}
+	return model.PickType(c, true, false, false)
 }
 
 func docFor(c *simkit.Choices, te *model.TypeEntry, f model.Format, val interface{}) []byte {
@@ -208,9 +203,13 @@ func genOp(c *simkit.Choices, sh *shared, taskIdx int) *op {
 	case 0: // fold -> encoder -> writer
 		i := c.N(len(sh.vals))
 		f := model.Formats[c.N(3)]
-		val := sh.vals[i]
+		val, tname := sh.vals[i], sh.types[i].Name
+		if c.N(4) == 0 { // a value of its own, possibly of a fold-only type
+			te := model.PickType(c, false, false, false)
+			val, tname = te.Gen(c), te.Name
+		}
 		cd := common.ByName(f)
-		return &op{desc: OpDesc{Kind: "fold-encode", Format: string(f), Type: sh.types[i].Name},
+		return &op{desc: OpDesc{Kind: "fold-encode", Format: string(f), Type: tname},
 			check: func(_ string, parts []interface{}) string {
 				out, _ := parts[0].([]byte)
 				if m := foreignMarker(string(out), "v", -1); m != "" {
